@@ -566,7 +566,11 @@ func symIndexAddr(cells []value, idx sv) value {
 		panic(targetPanicStr(fmt.Sprintf("runtime error: index out of range [symbolic] with length %d", n)))
 	}
 	p := symptr{}
+	rlo, rhi, rok := urange(idx.t)
 	for i := 0; i < n; i++ {
+		if rok && (uint64(i) < rlo || uint64(i) > rhi) {
+			continue // outside the cheaply known range of the index
+		}
 		g := mkEq(idx.t, mkBV(w, uint64(i)))
 		if g.isFalse() {
 			continue
